@@ -492,7 +492,7 @@ PROPS["C13"]["technique"] += " + Apalache (symbolic integer losses) on the stop 
 # ---- specification growth beyond the listed properties (not registered in MANIFEST.json) ----
 PROPS["X01"] = {
     "level": "model_checking", "technique": "TLC case table of TensorUtil.tla + exact replay",
-    "level_text": "tensor utilities beyond the listed properties: one_hot, argmax tie rule, pad3d, upsample3d, resize, dropout mask",
+    "level_text": "tensor utilities beyond the listed properties: one_hot, argmax tie rule, pad3d, upsample3d, resize, get_triple, quadruple_to_vec_triple, hadamard3d, dropout mask",
     "level_note": "small shapes; the dropout mask is specified through Random.tla (seed 12345, dyadic rates)",
     "rule": "one case per utility call; all distinct",
     "mc": [{"module": "MC_X01", "consts": {"quick": {"MaxDim": 3, "Seeds": "{1, 2}"}, "thorough": {"MaxDim": 4, "Seeds": "{1, 2, 3}"}}, "workers": 4}],
